@@ -11,6 +11,7 @@ EXPLANATION = (
     "seed-independently (C08 clauses), surplus keywords are collected in sorted order. Counting executions is dynamic by "
     "nature and is NOT decided; eviction/invalidation interplay is C12/C18."
     ' expires_after: duration = timedelta(every parameter), valid iff age < total_seconds(); metadata codec agreement between writer and reader.'
+    ' Arithmetic on the optional timestamp (None after pickling) is guarded (C06.OPTIONAL-TIMESTAMP).'
 )
 ASSUMPTIONS = [
     "pickle of equal builtin values yields equal streams for protocol 3 once containers are order-normalised",
